@@ -407,9 +407,21 @@ def structural(chk, progs):
             if p.stats["max_chain"] >= 2:
                 chk.nontrivial.add("S" + src)
         else:
-            chk.violation(f"tie:scope:{tag}:structure",
-                          f"cells / capture pairs of the real compiler differ from the scope model's: real(projected)={proj[:700]} model={m[:700]}",
-                          dict(replay, real=proj, model=m), no_input=True)
+            hit = failing_input_search(chk)
+            if hit is not None:
+                c, ci, co = hit
+                kind = "wrong-output" if ci.get("out") != co.get("out") else "wrong-value"
+                if ci["outcome"] != "ok":
+                    kind = ci["outcome"].split(" ")[0].split(":")[0]
+                chk.violation(f"scope:structure:{kind}",
+                              f"the compiled structure (cells / capture pairs) differs from the scope model's and a program exists on which a name then denotes "
+                              f"the wrong cell ({c.tag}): impl={json.dumps(ci)[:500]} expected={json.dumps(co)[:500]}; first structural difference on a {tag} program: "
+                              f"real(projected)={proj[:300]} model={m[:300]}",
+                              c.replay({"impl": ci, "expected": co, "structural": dict(replay, real=proj, model=m)}))
+            else:
+                chk.violation(f"tie:scope:{tag}:structure",
+                              f"cells / capture pairs of the real compiler differ from the scope model's: real(projected)={proj[:700]} model={m[:700]}",
+                              dict(replay, real=proj, model=m), no_input=True)
     chk.coverage["structural_agreements"] = chk.coverage.get("structural_agreements", 0) + agree
 
 
@@ -465,6 +477,87 @@ def t_distance(rng, depth, kinds):
         ds.append(('let', 'r', ('ce', ('v', 'f1'), [('i', 1)]), INT))
     ds.append(('let', 'r2', ('c', 'add', [('v', 'r'), ('v', 'top')]), INT))
     return ds
+
+
+def t_same_index(rng, depth, kinds):
+    """the same cell index captured at several distances: every level has two parameters (cells 0 and 1) and
+    mentions, in a shuffled textual order and partly before / partly after its inner function is declared, the first
+    and the second parameter of EVERY enclosing level and its own; each mention is displayed, every parameter has its
+    own value, so a capture that aliases the cell of another level shows as a wrong output line / value"""
+    def level(i):
+        p, q = f'p{i}', f'q{i}'
+        refs = [('v', f'{w}{j}') for j in range(1, i + 1) for w in ('p', 'q')]
+        rng.shuffle(refs)
+        cut = rng.randrange(0, len(refs) + 1)
+        if i >= 3 and rng.random() < 0.7:
+            # make sure an outer first/second parameter is mentioned before the inner function is closed
+            first = [r for r in refs if r[1] in (f'p{i - 2}', f'q{i - 2}', f'p{i - 1}')]
+            refs = first + [r for r in refs if r not in first]
+            cut = max(cut, rng.randrange(1, len(first) + 1))
+        mk = lambda n, r: ('let', f'u{i}_{n}', ('c', 'display', [r]), INT)
+        before = [mk(n, r) for n, r in enumerate(refs[:cut])]
+        after = [mk(n + cut, r) for n, r in enumerate(refs[cut:])]
+        names = [('v', f'u{i}_{n}') for n in range(len(refs))]
+        if i == depth:
+            decls = before + after
+            body = ('c', 'display', [add_all([('c', 'mul', [x, ('i', 3 + n)]) for n, x in enumerate(names)] + [('v', p)])])
+        else:
+            inner = level(i + 1)
+            args = [('i', 10 * (i + 1) + 1), ('i', 10 * (i + 1) + 2)]
+            if kinds[i] == 'fn':
+                decls = before + [inner] + after
+                call = ('c', f'g{i + 1}', args)
+            else:
+                decls = before + [('let', f'g{i + 1}', inner, None)] + after
+                call = ('ce', ('v', f'g{i + 1}'), args)
+            body = add_all([call] + [('c', 'mul', [x, ('i', 2 + n)]) for n, x in enumerate(names)])
+        if kinds[i - 1] == 'fn':
+            return ('fn', f'g{i}', [(p, INT, None), (q, INT, None)], INT, decls, body)
+        return ('lam', [(p, INT, None), (q, INT, None)], decls, body, INT)
+
+    top = level(1)
+    if kinds[0] == 'fn':
+        return [top, ('let', 'r', ('c', 'g1', [('i', 11), ('i', 12)]), INT), ('let', 'r2', ('c', 'g1', [('i', 1011), ('i', 1012)]), INT)]
+    return [('let', 'g1', top, None), ('let', 'r', ('ce', ('v', 'g1'), [('i', 11), ('i', 12)]), INT)]
+
+
+def same_index_family(rng, n, depths=(3, 4, 5, 6)):
+    out = []
+    for rep in range(n):
+        depth = depths[rep % len(depths)]
+        kinds = [rng.choice(['fn', 'fn', 'lam']) for _ in range(depth)]
+        if rep < len(depths):
+            kinds = ['fn'] * depth
+        out.append(FCase(t_same_index(rng, depth, kinds), f"same-index-{depth}"))
+    return out
+
+
+_SEARCH = {}
+
+
+def failing_input_search(chk):
+    """when the structural tie breaks: look for a program on which the implementation's *behaviour* is wrong —
+    the families whose meaning depends on every capture pair being right (same cell index at several distances,
+    captures at distance 1..6).  Returns (case, impl, expected) or None; runs once per check."""
+    if "done" in _SEARCH:
+        return _SEARCH.get("hit")
+    _SEARCH["done"] = True
+    rng = chk.rng
+    cands = same_index_family(rng, 60 if chk.tier == "quick" else 400, depths=(4, 5, 6, 4))
+    for depth in range(2, 7):
+        for rep in range(4):
+            cands.append(FCase(t_distance(rng, depth, [rng.choice(['fn', 'lam']) for _ in range(depth)]), f"distance-{depth}"))
+    impl = run_harness([c.req() for c in cands])
+    chk.count("failing-input-search:programs", len(cands))
+    for c, r in zip(cands, impl):
+        ci = cg.canon_impl(r, c.names)
+        co, ev = c.oracle()
+        if co["outcome"].startswith("oracle-"):
+            continue
+        if not cg.same(ci, co):
+            _SEARCH["hit"] = (c, ci, co)
+            return _SEARCH["hit"]
+    return None
 
 
 def t_shadow(rng):
@@ -803,6 +896,7 @@ def run(chk):
             if rep == 1:
                 kinds = ['lam'] * depth
             cases.append(FCase(t_distance(rng, depth, kinds), f"distance-{depth}"))
+    cases += same_index_family(rng, 12 if quick else 160)
     for rep in range(4 if quick else 40):
         cases.append(FCase(t_shadow(rng), "shadow"))
         cases.append(FCase(t_escape(rng), "escape"))
@@ -872,7 +966,7 @@ def run(chk):
     chk.count("spellings", len(names))
     interner(chk, names, 150)
 
-    return chk.finish(rule="generated core programs + targeted templates (captures at ancestor distance 1..6 through fn/lambda mixes, shadowing chains "
+    return chk.finish(rule="generated core programs + targeted templates (captures at ancestor distance 1..6 through fn/lambda mixes, the same cell index captured at several distances (depth 3..6, every level's two parameters mentioned by every inner level in shuffled order), shadowing chains "
                            "incl. same-scope redeclaration, escaping closures, recursion through captured recursion cells, displaying defaults, "
                            "forward declarations) three ways (implementation / Lean core model / Python reference evaluator); the same programs' "
                            "compiled structure (cells, capture pairs, declarations, Value references, forward-requirement counts) real compiler vs "
